@@ -46,6 +46,10 @@ def main() -> int:
         out["demo_without_patch"] = "pass" if rc0 == 0 else f"FAIL rc={rc0}: {o0[-300:]}"
         rc, o = sh(f"git -C {wt} apply {sd / 'patch.diff'}")
         if rc != 0:
+            # /repo has moved on (fix commits): fall back to a 3-way merge of the seeded change
+            rc, o = sh(f"git -C {wt} apply -3 {sd / 'patch.diff'} && git -C {wt} reset -q")
+            out["applied_with_3way"] = rc == 0
+        if rc != 0:
             out["apply"] = o[-300:]
             print(json.dumps(out, indent=1))
             return 2
